@@ -86,7 +86,7 @@ class C10(Check):
     def execute(self, case, env):
         out = Outcome()
         env.state["k"] += 1
-        work = os.path.join(env.scratch, "c10-%d" % env.state["k"])
+        work = env.tmpdir("c10-")
         src = os.path.join(work, "src")
         os.makedirs(src)
         apath = os.path.join(work, "a.7z")
